@@ -328,3 +328,15 @@ text("c12-report-table-hole", "C12", USM, "        ObjectIdentifier(\"1.3.6.1.6.
 text("c12-report-no-raise", "C12", USM, "            msg = errors[varbind.oid]\n            raise SnmpError(f\"Error response from remote device: {msg}\")", "            msg = errors[varbind.oid]\n            LOG_MSG = msg")
 text("c12-disco-id-unchecked", "C12", USM, "        validate_response_id(request_id, response_id)\n", "")
 text("c12-validate-skipped-for-plain", "C12", USM, "        message = decrypt_message(message, credentials)\n        validate_usm_message(message)\n        return message", "        message = decrypt_message(message, credentials)\n        if credentials.priv is not None:\n            validate_usm_message(message)\n        return message")
+
+# ---------------------------------------------------------------- C14
+text("c14-request-id-on-self", "C14", RAW, "    async def _send(self, pdu: PDU, request_id: int) -> PDU:\n        packet, _ = await self.mpm.encode(\n            request_id,", "    async def _send(self, pdu: PDU, request_id: int) -> PDU:\n        self.request_id = request_id\n        packet, _ = await self.mpm.encode(\n            self.request_id,")
+text("c14-last-response-cache", "C14", RAW, "        response = self.mpm.decode(raw_response, self.credentials)\n        validate_response_id", "        response = self.mpm.decode(raw_response, self.credentials)\n        self.last_response = response\n        validate_response_id")
+text("c14-module-level-pending", "C14", RAW, "    async def _send(self, pdu: PDU, request_id: int) -> PDU:\n", "    async def _send(self, pdu: PDU, request_id: int) -> PDU:\n        PENDING[request_id] = pdu\n")
+text("c14-mpm-stores-pdu", "C14", V3, "        scoped_pdu = ScopedPDU(\n            OctetString(engine_id), OctetString(context_name), pdu\n        )", "        self.current_pdu = pdu\n        scoped_pdu = ScopedPDU(\n            OctetString(engine_id), OctetString(context_name), self.current_pdu\n        )")
+text("c14-usm-stores-credentials", "C14", USM, "        security_name = credentials.username.encode(\"ascii\")\n        engine_config", "        self.credentials = credentials\n        security_name = self.credentials.username.encode(\"ascii\")\n        engine_config")
+text("c14-shared-yielded-set", "C14", RAW, "        yielded: Set[ObjectIdentifier] = set()\n", "        yielded = self._yielded\n")
+text("c14-await-between-timing", "C14", V3, "        snmp_version = 3\n        msg = PlainMessage", "        await asyncio_sleep0()\n        snmp_version = 3\n        msg = PlainMessage")
+text("c14-lazy-init-await", "C14", V3, "        security_model_id = 3\n        if self.security_model is None:\n            self.security_model = create_sm(security_model_id)\n\n        # We need", "        security_model_id = 3\n        if self.security_model is None:\n            await asyncio_sleep0()\n            self.security_model = create_sm(security_model_id)\n\n        # We need")
+text("c14-class-level-future", "C14", "puresnmp/transport.py", "    def __init__(self, packet: bytes) -> None:\n        loop = asyncio.get_running_loop()\n        self.packet = packet", "    replies = []\n\n    def __init__(self, packet: bytes) -> None:\n        loop = asyncio.get_running_loop()\n        self.packet = packet")
+text("c14-s-local-counter", "C14", RAW, "        output = []\n        for oid, value in response_object.value.varbinds:", "        output = []\n        seen_markers = []\n        for oid, value in response_object.value.varbinds:", expect="silent")
